@@ -1,4 +1,4 @@
-//go:build verif
+//go:build verif && (verif_c02 || verif_c13 || verif_c14)
 
 package v2
 
